@@ -7,7 +7,8 @@
   Silent model steps (no hooked operation in the filter): the API call that leads to `yield_with` (taken from the
   preceding `call` event) and the resume of the suspended coroutine (taken when its next event appears).
   The scenario header says which order the subscribe side of the tree under test has (`fixed=1`: `set_co` before the
-  coroutine is published; the harness reads it off the source), i.e. which model variant (`fx`) is replayed.
+  coroutine is published; `setco=1`: `set_co` looks at `is_disabled()` first, F16; the harness reads both off the
+  source), i.e. which model variant (`fx`, `dz`) is replayed.
   Slot 0 is the coroutine's own `Park.wait_co`; slots >= 1 are `sleep_co` cells (not distinguished by instance:
   their addresses are recycled).
 -/
@@ -48,6 +49,8 @@ def klabel (sh : Sh) (np : Nat) : KPc → Env → Label
   | .k1 _, _ => if sh.fx then loadL sh else { obj := "cancel.co", inst := iCo, op := "opt.store", a1 := .ne (-1) }
   | .k3 _, _ | .kf0 _, _ | .kf3 _, _ => { obj := "cancel.co", inst := iCo, op := "opt.store", a1 := .ne (-1) }
   | .kt s, _ => slotTake sh np s
+  | .kd0 _, _ | .kd3 _, _ => loadL sh
+  | .kd1c _, _ | .kd3c _, _ => { obj := "cancel.co", inst := iCo, op := "opt.clear" }
   | .k4 _, _ => loadL sh
   | .kc _ c, _ => clabel sh np c
   | .off, _ => { kind := "none", op := "-" }
@@ -59,6 +62,7 @@ def cpcName : CPc → String | .c0 => "c0" | .c1 => "c1" | .c2 => "c2" | .c3 _ =
 def kpcName : KPc → String
   | .off => "off" | .k0 _ => "k0" | .k1 _ => "k1" | .k3 _ => "k3" | .k4 _ => "k4" | .kc _ c => "k." ++ cpcName c
   | .kf0 _ => "kf0" | .kf3 _ => "kf3" | .kt _ => "kt"
+  | .kd0 _ => "kd0" | .kd1c _ => "kd1c" | .kd3 _ => "kd3" | .kd3c _ => "kd3c"
 def srcName : Src → String
   | .park _ c => if c then "park" else "park.nochk" | .sleep => "sleep" | .yld => "yield" | .send => "send"
 
@@ -149,6 +153,8 @@ def kCands (r : RSt) (n : Nat) : List (Label × RSt × String) :=
      | .k1 s0, .selfwake => if s.sh.slot s0 then "k1/selfwake.took" else "k1/selfwake.empty"
      | .k1 _, _ => if s.sh.fx then (if s.sh.cst = 1 then "k1/recheck.cancel" else "k1/recheck.pass") else "k1/register"
      | .kt s0, _ => if s.sh.slot s0 then "kt/took" else "kt/empty"
+     | .kd0 _, _ => if 2 ≤ s.sh.cst then "kd0/disabled" else "kd0/enabled"
+     | .kd3 _, _ => if 2 ≤ s.sh.cst then "kd3/disabled" else "kd3/enabled"
      | .k4 _, _ => if s.sh.cst = 1 then "k4/cancel" else "k4/pass"
      | .kc _ c, _ => "k." ++ cov3 s.sh c
      | _, _ => kpcName pc)
@@ -229,7 +235,7 @@ def invCheck (r : RSt) : Option String :=
 
 def machine : Machine where
   St := RSt
-  init := fun h => .ok { st := init true .none 1 (hget h "fixed" == some "1"), np := 1, pend := [], tag := (hget h "tag").getD "" }
+  init := fun h => .ok { st := init true .none 1 (hget h "fixed" == some "1") (hget h "setco" == some "1"), np := 1, pend := [], tag := (hget h "tag").getD "" }
   actor := fun r a => actorOf r.tag a
   cands := cands
   inv := invCheck
